@@ -1,6 +1,7 @@
 mod core;
 mod gen_diff;
 mod gen_lookup;
+mod gen_lua;
 mod gen_soup;
 mod gen_src;
 mod gen_val;
@@ -28,6 +29,11 @@ fn main() -> anyhow::Result<()> {
         }
         Some("soup") => {
             let rows = core::par_cases(a.n, a.seed, |ctx, seed, i| gen_soup::generate(ctx, seed, i));
+            core::write_out(&a.out, &rows)
+        }
+        Some("lua") => {
+            let max_blocks = if a.tier == "thorough" { 40 } else { 12 };
+            let rows = core::par_cases(a.n, a.seed, |ctx, seed, i| gen_lua::generate(ctx, seed, i, max_blocks));
             core::write_out(&a.out, &rows)
         }
         Some("lookup") => core::write_out(&a.out, &gen_lookup::rows(a.seed, a.n)),
